@@ -127,6 +127,12 @@ BC_KINDS = [
     {"low": {"value": 1}, "high": {"value": 2}}, {"value_expression": "1.5"}, {"derivative_expression": "0.5"},
     {"value_expression": "1 + t"}, {"value_expression": "2 + t"}, {"derivative_expression": "t"},
     {"value_expression": "1 + COORD"}, {"value_expression": "2 * COORD"}, {"derivative_expression": "COORD"},
+    # anti-periodic instead of periodic on the periodic axes
+    {"value": 0, "_anti": True}, {"derivative": 0, "_anti": True},
+    # boundary values given as functions: closures made by one factory, differing in a captured number only
+    {"_callable": 1.0}, {"_callable": 2.0}, {"_callable": -1.0},
+    # Robin conditions that agree in everything but the constant
+    {"type": "mixed", "value": 1, "const": 0}, {"type": "mixed", "value": 1, "const": 3},
 ]
 
 OPS_BY_RANK = {0: ["laplace", "gradient", "gradient_squared"], 1: ["divergence", "vector_gradient", "vector_laplace"],
@@ -154,8 +160,11 @@ EQ_POOL = [
 
 def _bc(r):
     # biased towards the small homogeneous kinds that coincide in every attribute but their class
-    if r.random() < 0.6:
+    x = r.random()
+    if x < 0.5:
         return r.choice(BC_KINDS[:8])
+    if x < 0.62:
+        return r.choice(BC_KINDS[-7:])  # siblings: anti-periodic, function values, Robin constants
     return r.choice(BC_KINDS)
 
 
@@ -263,6 +272,36 @@ def gen_plan(rng, tier, idx):
                      {"op": "rate", "eq": eid, "state": "c4", "t": 0.0, "via": via(), "backend": rng.choice(["numpy", "numba"])}]
             if rng.random() < 0.5:
                 motif = motif[2:] + motif[:2]
+            pos = rng.randint(0, len(ops))
+            ops[pos:pos] = motif
+    # motif: ONE equation object whose conditions are given by name meets two grids that differ in nothing but their
+    # periodicity (same class, shape and bounds)
+    if rng.random() < 0.3:
+        cand = [g for g in grids.values() if "periodic" in g and g["cls"] in ("UnitGrid", "CartesianGrid", "CylindricalSymGrid")]
+        if cand:
+            ga = copy.deepcopy(rng.choice(cand))
+            gb = copy.deepcopy(ga)
+            ax = len(gb["periodic"]) - 1 if gb["cls"] == "CylindricalSymGrid" else rng.randrange(len(gb["periodic"]))
+            gb["periodic"][ax] = not gb["periodic"][ax]
+            na, nf, ne = len(grids), len(fields), len(eqs)
+            grids[f"g{na}"], grids[f"g{na + 1}"] = ga, gb
+            fields[f"f{nf}"] = {"grid": f"g{na}", "rank": 0, "dtype": "float", "seed": rng.randrange(1 << 30)}
+            fields[f"f{nf + 1}"] = {"grid": f"g{na + 1}", "rank": 0, "dtype": "float", "seed": rng.randrange(1 << 30)}
+            auto = rng.choice(["auto_periodic_neumann", "auto_periodic_dirichlet"])
+            eqs[f"e{ne}"] = rng.choice([{"cls": "DiffusionPDE", "diffusivity": 1, "bc": auto},
+                                        {"cls": "PDE", "rhs": {"c": "laplace(c) - c"}, "consts": {}, "bc": auto},
+                                        {"cls": "AllenCahnPDE", "interface_width": 1, "mobility": 1, "bc": auto}])
+
+            def use(fid):
+                if rng.random() < 0.6:
+                    return {"op": "rate", "eq": f"e{ne}", "state": fid, "t": 0.0, "via": rng.choice(["evolution_rate", "make_pde_rhs"]),
+                            "backend": rng.choice(["numpy", "numba"])}
+                return {"op": "solve", "eq": f"e{ne}", "state": fid, "steps": 1, "dt": 1e-4, "solver": "euler",
+                        "backend": rng.choice(["numpy", "numba"]), "kw": {}}
+
+            motif = [use(f"f{nf}"), use(f"f{nf + 1}")]
+            if rng.random() < 0.5:
+                motif.reverse()
             pos = rng.randint(0, len(ops))
             ops[pos:pos] = motif
     return {"engine": "history-sim", "header": header, "ops": ops}
